@@ -48,6 +48,7 @@ class UnitSpec:
         self.raw_after = []  # verus text appended after the impl (lemmas using extracted items)
         self.impl_of = {}
         self.wrap = {}
+        self.rlimit = None
 
 
 def parse_kv(tokens):
@@ -91,6 +92,8 @@ def parse_spec(path):
                 u.name = toks[1]
             elif head == 'only':
                 pass  # read by engines.units_for: this unit serves only the listed properties
+            elif head == 'rlimit':
+                u.rlimit = toks[1]
             elif head == 'prelude':
                 u.preludes.append(toks[1])
             elif head == 'structpub':
@@ -125,6 +128,11 @@ def parse_spec(path):
             elif head in ('sig', 'entry', 'end'):
                 flush()
                 cur_sec = (head, None, {})
+            elif head == 'cases':
+                # @cases loopstart K : one boolean expression per line; the unit is verified once per case with that case
+                # assumed at the anchor, and every variant first asserts that the cases are exhaustive
+                flush()
+                cur_sec = ('cases_' + toks[1], int(toks[2]), {})
             elif head in ('loop', 'closure', 'loopstart', 'loopend'):
                 flush()
                 opts, rest = parse_kv(toks[1:])
@@ -192,7 +200,7 @@ def shim_wrap(name, original, replacement):
     return '/*@S<%s:%s*/%s/*@S>*/' % (name, base64.b64encode(original.encode()).decode(), replacement)
 
 
-def weave_fn(fs: FnSpec, text: str, sig_brace: int, shim_table):
+def weave_fn(fs: FnSpec, text: str, sig_brace: int, shim_table, variant=0):
     """text: the function's verbatim source text; sig_brace: index of the body '{'.
     Returns woven text."""
     m = mask(text)
@@ -263,6 +271,13 @@ def weave_fn(fs: FnSpec, text: str, sig_brace: int, shim_table):
                     raise WeaveError('%s loop %d is not a for loop' % (name, arg))
                 edits.append((lp['in_pos'], order, inline(opts['iter'] + ': ')))
             edits.append((lp['open'], order, block(name, 'loop%d' % arg, stext)))
+        elif kind == 'cases_loopstart':
+            lp = need_loop(arg)
+            cases = [c.strip() for c in stext.split('\n') if c.strip()]
+            k = variant % len(cases)
+            body = '    proof {\n        assert(%s); //#cases_exhaustive\n        assume(%s); // case %d of %d\n    }\n' % (
+                ' || '.join('(%s)' % c for c in cases), cases[k], k + 1, len(cases))
+            edits.append((lp['open'] + 1, order, block(name, 'cases%d' % arg, body)))
         elif kind == 'loopstart':
             lp = need_loop(arg)
             lint_ghost_block(name, 'loopstart%d' % arg, stext)
@@ -329,8 +344,8 @@ def weave_fn(fs: FnSpec, text: str, sig_brace: int, shim_table):
     for sname in fs.shims:
         sh = shim_table[sname]
         hits = list(re.finditer(sh['pattern'], m[sig_brace:], re.S))
-        if not hits:
-            raise WeaveError('lost anchor: shim %s does not match anything in %s' % (sname, name))
+        # a shim is a rewrite rule: where its pattern does not occur there is nothing to rewrite (if the code now uses a
+        # construct Verus cannot read, Verus says so and the function is reported UNDECIDED)
         for h in hits:
             a, b = sig_brace + h.start(), sig_brace + h.end()
 
@@ -375,7 +390,7 @@ def strip_woven(w: str) -> str:
 # whole unit
 
 
-def build_unit(spec_path, repo, contracts_dir, shim_table, force_extern=None):
+def build_unit(spec_path, repo, contracts_dir, shim_table, force_extern=None, variant=0):
     u = parse_spec(spec_path)
     srcs = {}
 
@@ -465,7 +480,7 @@ def build_unit(spec_path, repo, contracts_dir, shim_table, force_extern=None):
         woven = None
         if not fs.extern and fs.name not in force_extern:
             try:
-                woven = weave_fn(fs, text, brace - a, shim_table)
+                woven = weave_fn(fs, text, brace - a, shim_table, variant)
             except WeaveError as e:
                 # this function cannot be woven (lost anchor / shim no longer matches): keep the unit alive by
                 # assuming its contract; every obligation of the function is then reported as UNDECIDED
@@ -534,6 +549,11 @@ def build_unit(spec_path, repo, contracts_dir, shim_table, force_extern=None):
     for r in u.raw_after:
         parts.append('\n//@W< fn=__lemmas sec=raw\n' + r + '//@W>\n')
     parts.append('\n} // verus!\nfn main() {}\n')
+    u.n_variants = 1
+    for fs in u.fns:
+        for (kind, arg, opts, stext) in fs.sections:
+            if kind.startswith('cases_'):
+                u.n_variants = max(u.n_variants, len([c for c in stext.split('\n') if c.strip()]))
     return u, ''.join(parts), fn_info
 
 
